@@ -708,3 +708,53 @@ Example no_lost_notification_nontrivial :
   /\ c_rpc s = RParked /\ c_rwoken s = false /\ map snd_finished (c_snd s) = [true]
   /\ c_log s = [6; 0]%Z.
 Proof. vm_compute. repeat split; reflexivity. Qed.
+
+(* ------------------------------------------------------------------------------------ *)
+(** * (a') await path with the waker callbacks as yield points: BOUNDED sweep
+    one awaiter (ready() or into_future()) and the completer, every schedule of at most 14
+    slots.  (The unbounded theorem [no_lost_wakeup] is about the coarser steps.) *)
+
+Fixpoint scheds (n : nat) : list (list nat) :=
+  match n with
+  | O => [[]]
+  | S k => flat_map (fun l => [0 :: l; 1 :: l]) (scheds k)
+  end.
+
+Lemma In_scheds l : Forall (fun t => t < 2) l -> In l (scheds (length l)).
+Proof.
+  induction 1 as [|t l Ht Hl IH]; cbn; auto.
+  apply in_flat_map. exists l. split; auto.
+  destruct t as [|[|t]]; cbn; auto. lia.
+Qed.
+
+Definition u_all_done (u : ust) : bool :=
+  match c_pc (u_s u) with CDone => true | _ => false end
+  && forallb (fun a => match a_pc a with ADone v => Z.eqb v VAL | _ => false end) (aws (u_s u)).
+
+Definition u_ok (kind : bool) (l : list nat) : bool :=
+  let u := urun (uinit [kind]) l in implb (uterminalb u) (u_all_done u).
+
+Lemma u_sweep : forallb (fun n => forallb (fun l => u_ok false l && u_ok true l) (scheds n)) (seq 0 15) = true.
+Proof. vm_compute. reflexivity. Qed.
+
+Theorem no_lost_wakeup_callback_points_bounded :
+  forall (kind : bool) (sched : list nat),
+    length sched <= 14 -> Forall (fun t => t < 2) sched ->
+    let u := urun (uinit [kind]) sched in
+    uterminalb u = true -> u_all_done u = true.
+Proof.
+  intros kind sched Hlen Hall u T.
+  pose proof u_sweep as S. rewrite forallb_forall in S.
+  assert (Hin : In (length sched) (seq 0 15)) by (apply in_seq; lia).
+  specialize (S _ Hin). rewrite forallb_forall in S.
+  specialize (S _ (In_scheds _ Hall)). apply andb_true_iff in S as [S0 S1].
+  unfold u_ok in *. subst u. destruct kind; [rewrite T in S1|rewrite T in S0]; cbn in *; auto.
+Qed.
+
+(** hypotheses satisfiable: the awaiter is pre-empted inside the wakers lock, the completer
+    blocks on the lock at its drain and continues when the awaiter has pushed *)
+Example callback_points_nontrivial :
+  let u1 := urun (uinit [false]) [0; 0; 1; 1; 1; 1]%nat in
+  let u := urun (uinit [false]) [0; 0; 1; 1; 1; 1; 0; 0]%nat in
+  (u_wl u1 = Some 0%nat /\ u_wq u1 = [1]%nat) /\ uterminalb u = true /\ u_all_done u = true.
+Proof. vm_compute. repeat split; reflexivity. Qed.
